@@ -33,7 +33,7 @@ func c06Render(tmpl string) c06Run {
 		"ct": func() bool { atomic.AddInt32(&ct, 1); return true },
 		"cf": func() bool { atomic.AddInt32(&cf, 1); return false },
 	}
-	for _, l := range c06Pool {
+	for _, l := range c06AllPool {
 		if l.goVal != nil {
 			data[l.name] = l.goVal
 		}
@@ -290,6 +290,8 @@ func c06EvalFamily(n *c06Node, c c06Checked) string {
 		return "operand-evaluation-count-" + op.name
 	case n.op == "/" && lk == "int":
 		return "intdiv"
+	case n.op == "+" && lk == "string" && rk != "string":
+		return "concat-printed-form-" + rk
 	}
 	return "wrong-value-" + op.name + "-" + lk
 }
@@ -420,11 +422,15 @@ func c06EnumTrees(k int, ops []string, withNot bool, leaves []*c06Leaf, emit fun
 type c06GenCfg struct {
 	pool   []*c06Leaf
 	probes bool
+	magPct int // percentage of int / float leaves taken from the extension pool
 }
 
 func c06GenLeaf(r *Rng, want c06Kind, g c06GenCfg) *c06Node {
 	if want == c06Bool && g.probes && r.Chance(45) {
 		return c06L(Pick(r, c06Probes))
+	}
+	if (want == c06Int || want == c06Float) && g.magPct > 0 && r.Chance(g.magPct) {
+		return c06L(Pick(r, c06LeavesOf(want, c06ExtPool)))
 	}
 	ls := c06LeavesOf(want, g.pool)
 	return c06L(Pick(r, ls))
@@ -487,19 +493,23 @@ func init() {
 	oracles["C06"] = func(cfg Config) []*Report {
 		rep := NewReport("C06", "C06", cfg)
 		rep.Exhaustive = true
-		rep.Rule = "expression TREES over a pool of 19 leaves (ints 0 3 7 ip=3 im=-3; dyadic floats 1.5 0.25 0.0 fh=1.5 fm=-0.5; " +
-			"strings \"a\" \"b\" \"\" \"3\" sa=\"a\" sx=\"a<b\"; true false; nil) and 13 binary operators + unary !. " +
+		rep.Rule = "expression TREES over an everyday pool of 19 leaves (ints 0 3 7 ip=3 im=-3; dyadic floats 1.5 0.25 0.0 fh=1.5 fm=-0.5; " +
+			"strings \"a\" \"b\" \"\" \"3\" sa=\"a\" sx=\"a<b\"; true false; nil), an extension pool of 11 out-of-the-everyday-range numbers " +
+			"(ints beyond 53 bits: 9007199254740993 9007199254740992 9223372036854775807 ib=2^62+1 ibm=-(2^53+1); floats 2.0 and, printing with an exponent, 1000000.0 0.00001 fb=2.5e7 fs=2^-14 fg=3e21) " +
+			"and 13 binary operators + unary !. " +
 			"Exhaustive: (sc) every tree with <=2 operator nodes over {&& || ! ==} and leaves {true false ct() cf() 0 \"\" nil} where ct/cf are counting helpers; " +
-			"(L1) every tree with one operator node over the whole pool (= all trees of depth<=2 when a leaf has depth 1); " +
-			"(L2) every tree with two operator nodes (both chain shapes, ! above/below) over the whole pool (thorough) or an 8-leaf sub-pool 0 3 im 1.5 \"a\" \"\" true nil (quick). " +
-			"The balanced shape (a op b) op (c op d) and everything deeper is random: type-directed trees to depth 6 (about 1 operand in 50 deliberately of a random type, 1 in 5 under && || !; counting helpers among the bool leaves). " +
+			"(L1) every tree with one operator node over both pools (= all trees of depth<=2 when a leaf has depth 1); " +
+			"(L2) every tree with two operator nodes (both chain shapes, ! above/below) over the everyday pool (thorough) or an 8-leaf sub-pool 0 3 im 1.5 \"a\" \"\" true nil (quick); " +
+			"(L2x) every tree with two binary operator nodes, at least one extension leaf, over * / + - < == and leaves 3 im 9007199254740993 ib 1.5 1000000.0 fs \"a\" (quick) or over * / + - < >= == != and leaves 3 im 1.5 \"a\" 9007199254740993 9007199254740992 ib ibm 1000000.0 0.00001 fb fs (thorough). " +
+			"The balanced shape (a op b) op (c op d) and everything deeper is random: type-directed trees to depth 6 (about 1 operand in 50 deliberately of a random type, 1 in 5 under && || !; counting helpers among the bool leaves; in 15% of the trees, of depth 2..4, 30% of the int / float leaves come from the extension pool). " +
 			"Each tree is printed with minimal, full and one random admissible parenthesisation and rendered as <%= EXPR %>; " +
-			"a reference evaluator over the tree (written from the property text) gives the expected value or error. " +
+			"a reference evaluator over the tree (written from the property text; ints are exact 64-bit, floats IEEE float64) gives the expected value or error. " +
+			"The printed form of a float that Go would write with an exponent is taken from plush's own rendering of <%= x %> with x that float64 (so only consistency is demanded: a value renders like itself, string + x appends that text). " +
 			"non-trivial = at least one operator and a result the property text defines; distinct by tree+printing. " +
 			"Case text: tree=<the oracle's own s-expression> style=min|full|p<pairs of parentheses per node, preorder> (tmpl= is informative). " +
 			"Cases the text leaves open are tagged ref-unspecified and not rendered. Every rendered case reaches parseExpression and (unless a parse error) evalInfix/evalPrefix."
 		rep.Notes = []string{
-			"not checked (property text silent): ~= with a non-string pattern or on non-strings of one type; - * / on strings; arithmetic and ordering on bools; any operator other than == != on nil,nil; string + nil; unary minus; integer results beyond 2^53; float results that would print with an exponent; the text of error messages",
+			"not checked (property text silent): ~= with a non-string pattern or on non-strings of one type; - * / on strings; arithmetic and ordering on bools; any operator other than == != on nil,nil; string + nil; unary minus; integer results that overflow 64 bits; float results that overflow to Inf/NaN; the spelling of a float printed with an exponent (only its consistency, see rule); the text of error messages",
 			"! && || on non-boolean operands are taken to yield the bool truth value of C07 (0 and numbers truthy, \"\" and nil falsy)",
 			"int vs float operands count as an operand-type mismatch (error), as do nil vs non-nil operands except under == != and string + x",
 			"helper-call counts are compared only when the reference result is a value (evaluation order of strict operators is not stated)",
@@ -609,7 +619,7 @@ func init() {
 			})
 		}
 		// (L1)
-		c06EnumTrees(1, allOps, true, c06Pool, func(n *c06Node) { addTree("L1", n) })
+		c06EnumTrees(1, allOps, true, c06AllPool, func(n *c06Node) { addTree("L1", n) })
 		// (L2)
 		l2pool := c06Pool
 		if !cfg.Thorough() {
@@ -619,9 +629,28 @@ func init() {
 			}
 		}
 		c06EnumTrees(2, allOps, true, l2pool, func(n *c06Node) { addTree("L2", n) })
+		// (L2x) two operator nodes around the extension values
+		xnames, xops := c06MagQuickNames, []string{"*", "/", "+", "-", "<", "=="}
+		if cfg.Thorough() {
+			xnames, xops = c06MagThoroughNames, []string{"*", "/", "+", "-", "<", ">=", "==", "!="}
+		}
+		var xpool []*c06Leaf
+		for _, nm := range xnames {
+			xpool = append(xpool, c06LeafByName(nm))
+		}
+		c06EnumTrees(2, xops, false, xpool, func(n *c06Node) {
+			if n.hasMag() {
+				addTree("L2x", n)
+			}
+		})
 		// random
 		g := c06GenCfg{pool: c06Pool, probes: true}
+		gx := c06GenCfg{pool: c06Pool, probes: true, magPct: 30}
 		for i := 0; i < cfg.N(75000, 1500000) && !stopped; i++ {
+			if r.Chance(15) { // a tree around the extension values: shallower, products of large ints soon overflow
+				addTree("random", c06Gen(r, 2+r.Intn(3), c06Any, gx, true))
+				continue
+			}
 			d := 2 + r.Intn(5) // 2..6
 			addTree("random", c06Gen(r, d, c06Any, g, true))
 		}
